@@ -1,8 +1,12 @@
 SPECIFICATION Spec
 CONSTANTS
-  Clears = {"scanner", "ins", "outs", "sp", "record", "match", "status", "hdr", "argc"}
+  Clears = {"scanner", "ins", "outs", "sp", "record", "match", "status", "hdr", "argc", "dash", "ctx"}
   MaxDraws = 4
-  JudgeKinds = {"plain", "p_io", "p_func"}
+  JudgeKinds = {"plain", "p_io", "p_func", "gl_dash", "sys"}
+  JudgeCfgs = {"c0", "c1", "c2"}
+  McKinds = {"plain", "setglob", "setfs", "csvhdr", "setmodes", "openout", "exit3", "errfunc", "errforin", "cancel", "rand", "srand5", "midfile", "match", "p_io", "p_func", "gl_plain", "gl_dash", "gl_dashvar", "exit_enderr", "exitbegin", "exit_endcancel", "sys", "pipe"}
+  McCfgs = {"c0", "c1", "c2", "c3", "c4"}
+  McTags = {1, 2}
 CONSTRAINT Bounded
 INVARIANTS Refines FreshAfterReset OnlyVarsCarry ResetsAreExact
 CHECK_DEADLOCK FALSE
